@@ -95,7 +95,7 @@ func (g *getGen) genOneofGetter(fd *protogen.Field) {
 		g.P("return ", kindToValueConstructor(fd.Desc.Kind()), "(", zeroValueForField(g.GeneratedFile, fd), ")")
 	}
 	// handle the case in which oneof field is set and it matches our sub-onefield type
-	g.P("} else if v, ok := x.", fd.Oneof.GoName, ".(*", fd.GoIdent, "); ok {")
+	g.P("} else if v, ok := x.", fd.Oneof.GoName, ".(*", fd.GoIdent, "); ok && v != nil {")
 	oneofTypeContainerFieldName := fd.GoName // field containing the oneof value
 	switch fd.Desc.Kind() {
 	case protoreflect.MessageKind: // it can be mutable
